@@ -65,6 +65,10 @@ type c02Rep struct {
 	// about that member since it started (what must decide the member's status when the
 	// failure detector reports it)
 	ledger map[string]*c02Best
+	// highest leave time any push/pull receiver fabricated for this member (left-list entry: status time + 1)
+	// so far, and the value of that maximum when the member's current incarnation started
+	fabLeaveMax     uint64
+	fabBeforeJoin   uint64
 }
 
 // c02Best is the newest intent a replica received about a member it does not list.
@@ -320,6 +324,9 @@ func (w *c02World) pushPull(a, b *c02Rep, join bool) {
 					x.leftListAfterJoin = true
 					w.stats["left_list_entry_at_or_after_current_join"]++
 				}
+				if x := w.byName(n); x != nil && pp.StatusLTimes[n]+1 > x.fabLeaveMax {
+					x.fabLeaveMax = pp.StatusLTimes[n] + 1
+				}
 			}
 		}
 	}
@@ -532,6 +539,7 @@ func (w *c02World) lifecycle() {
 			return
 		}
 		m.restarted = true
+		m.fabBeforeJoin = m.fabLeaveMax // includes what peers were handed while the previous incarnation was leaving
 		m.prunedBefore = m.prunedBefore || m.pruneIssued
 		m.pruneIssued = false
 		w.stats["restarts"]++
@@ -655,6 +663,10 @@ func c02Scenario(t *testing.T, rng *rand.Rand) (viols [][2]string, stats map[str
 			// seen that leave). Replicas that receive the old leave late cannot tell it from a
 			// newer one: listed known finding, computed from the ground truth of the scenario.
 			staleJoin := x.restarted && x.joinLTime <= x.prevLeaveMax
+			// the same collision with a FABRICATED leave: a replica that synced while the member was
+			// down was handed leave = (status time of the old leave) + 1, and the restarted member's
+			// join is newer than the real leave but not newer than that fabricated time
+			fabCollision := x.restarted && !staleJoin && x.joinLTime <= x.fabBeforeJoin
 			if staleJoin {
 				w.stats["restart_join_not_newer_than_old_leave"]++
 			}
@@ -662,6 +674,8 @@ func c02Scenario(t *testing.T, rng *rand.Rand) (viols [][2]string, stats map[str
 				switch {
 				case staleJoin:
 					return "restart-join-not-newer-than-earlier-leave"
+				case fabCollision:
+					return "restart-join-not-newer-than-fabricated-leave"
 				case x.leftListAfterJoin:
 					return "synthetic-leave-overrides-newer-join"
 				case x.restarted && x.prunedBefore:
@@ -670,6 +684,17 @@ func c02Scenario(t *testing.T, rng *rand.Rand) (viols [][2]string, stats map[str
 				return def
 			}
 			if len(distinct) > 1 {
+				if os.Getenv("VERIF_C02_DEBUG") != "" {
+					for _, r := range run {
+						fmt.Printf("DEBUG %s sees %v ; ledger %v\n", r.name, w.info(r), func() string {
+							var sb strings.Builder
+							for k, v := range r.ledger {
+								fmt.Fprintf(&sb, "%s:%+v ", k, *v)
+							}
+							return sb.String()
+						}())
+					}
+				}
 				key := classify("disagreement")
 				w.violate(key, fmt.Sprintf("after the closing state sync the running replicas disagree about %s: %v (left=%v crashed=%v forceLeft=%v leaveAccepted=%v)", x.name, views, x.everLeft, x.crashed, x.forceLeft, x.leaveAccepted))
 				continue
